@@ -50,7 +50,7 @@ def run_case(case):
                 raise HarnessError("reference encoder/verifier disagree on an intact payload: %r" % (case,))
             return Outcome(Violation("C05:own-metafile-wrong", "reference verifier reports %r%% for the tool's own metafile over intact content (C01-C03 territory)" % ref.percent), True)
         classes = rk.shape_classes(case, m)
-        pct, exc = rk.tool_recheck(mf, parent if case["content_path"] == "parent" else root)
+        pct, exc = rk.tool_recheck(mf, rk.content_of(case, root, parent))
     ver = classes[0]
     src = case["meta"]
     tag = "%s:%s" % (ver, src["kind"])
